@@ -145,6 +145,10 @@ class Result(object):
         return sorted(set(o.exc for o in self.raises()))
 
 
+def _is_notimpl(v):
+    return v is NotImplemented or (isinstance(v, ABuiltin) and v.name == "NotImplemented")
+
+
 class _GenStop(Exception):
     pass
 
@@ -1367,7 +1371,10 @@ class Interp(object):
             if isinstance(o, AObj) and o.cnode is not None and o.ident not in st.havoc:
                 r = self.repo.find_method(o.mod, o.cnode, meth)
                 if r is not None:
-                    return self.call_func(AFunc(r[0], r[1], self_obj=o, cls=o.cnode), [other], {}, st, node)
+                    v = self.call_func(AFunc(r[0], r[1], self_obj=o, cls=o.cnode), [other], {}, st, node)
+                    if _is_notimpl(v) and getattr(self, "_diverged", None) is None:
+                        continue        # the method declined: Python tries the next (reflected) one
+                    return v
         return NotImplemented
 
     def binop(self, op, a, b):
@@ -1405,7 +1412,7 @@ class Interp(object):
                             eq = self.repo.find_method(o.mod, o.cnode, "__eq__")
                             if eq is not None:
                                 v = self.call_func(AFunc(eq[0], eq[1], self_obj=o, cls=o.cnode), [other], {}, st, n)
-                                if v is NotImplemented:
+                                if _is_notimpl(v):
                                     continue
                                 t = truth(v)
                                 break
@@ -1436,7 +1443,7 @@ class Interp(object):
                         m = self.repo.find_method(o.mod, o.cnode, meth)
                         if m is not None:
                             v = self.call_func(AFunc(m[0], m[1], self_obj=o, cls=o.cnode), [other], {}, st, n)
-                            if v is NotImplemented:
+                            if _is_notimpl(v):
                                 continue
                             r = self.truthy(v, st, n)
                             break
